@@ -64,7 +64,9 @@ def from_all_sources(data_text, data_bytes=None):
         with open(path, 'wb') as f:
             f.write(raw)
         coll_family.install_fake_s3(coll_family.FakeS3({'k/doc.mos.xml': raw}))
-        makers = {'file': lambda: MosFile.from_file(path), 'bytes': lambda: MosFile.from_string(raw),
+        import pathlib
+        makers = {'file': lambda: MosFile.from_file(path), 'file-pathlib': lambda: MosFile.from_file(pathlib.Path(path)),
+                  'bytes': lambda: MosFile.from_string(raw),
                   's3': lambda: MosFile.from_s3(bucket_name='b', mos_file_key='k/doc.mos.xml')}
         if data_bytes is None:
             makers['str'] = lambda: MosFile.from_string(data_text)
